@@ -276,8 +276,8 @@ func ctxFieldPath(info *types.Info, e ast.Expr, recv types.Object) ([]string, bo
 // E11ContextState: setters, Push/Pop, Fill/Stroke save-restore.
 func E11ContextState(c *core.Ctx, r *core.Report) {
 	r.Rule("E11.ctx-setter", "every exported Set*/Reset* method of Context stores only into fields of ContextState (style, view, coordinate view/system), never into the stack, the pending path or the renderer")
-	r.Rule("E11.ctx-stack", "Push appends the whole ContextState value to the stack; Pop (guarded against an empty stack) restores the whole last element and shrinks the stack by exactly one")
-	r.Rule("E11.ctx-restore", "Fill clears and restores exactly Style.Stroke around its DrawPath, Stroke exactly Style.Fill, on every exit")
+	r.Rule("E11.ctx-stack", "Push unconditionally appends the whole ContextState value to the stack; Pop assigns the whole ContextState once, from stack[len−1], shrinks the stack once to [:len−1] (indices compared as polynomials in len(stack), locals resolved), restores before it shrinks, assigns no single state field, and with an empty stack no path reaches the restore")
+	r.Rule("E11.ctx-restore", "Fill, Stroke and FillStroke, over every path through the method: the pending path is reset before the method returns (after the draw, if it draws); where Fill draws, exactly Style.Stroke is saved, cleared before the DrawPath of the pending path and restored from the saved value afterwards, Stroke likewise with Style.Fill, FillStroke with neither cleared. A shortcut that returns without drawing must still reset the path: otherwise the skipped sub-paths ride along with the next draw")
 	p := c.MustPkg("")
 	info := p.TypesInfo
 	ctxObj := p.Types.Scope().Lookup("Context")
@@ -342,30 +342,331 @@ func E11ContextState(c *core.Ctx, r *core.Report) {
 	r.Floor("E11.ctx-setters", 20)
 
 	// Push / Pop
+	isField := func(e ast.Expr, recv types.Object, path ...string) bool {
+		names, rooted := ctxFieldPath(info, e, recv)
+		if _, isIdx := core.Unparen(e).(*ast.IndexExpr); isIdx || !rooted || len(names) != len(path) {
+			return false
+		}
+		for k := range names {
+			if names[k] != path[k] {
+				return false
+			}
+		}
+		return true
+	}
 	push := core.MustFuncDecl(p, "Context.Push")
-	if core.AlphaMatch("{$c.stack=append($c.stack,$c.ContextState)}", c.Norm(p, push.Body)) {
-		r.OK("E11.ctx-stack", "canvas.Context.Push", c.Pos(push.Pos()), "stack = append(stack, ContextState)")
-	} else {
-		r.Fail("E11.ctx-stack", "canvas.Context.Push", c.Pos(push.Pos()), "Push is not `c.stack = append(c.stack, c.ContextState)`: part of the state (style, view, coordinate view or system) would not be saved")
-	}
-	pop := core.MustFuncDecl(p, "Context.Pop")
-	if core.AlphaMatch("{if len($c.stack)==0{return};$c.ContextState=$c.stack[len($c.stack)-1];$c.stack=$c.stack[:len($c.stack)-1]}", c.Norm(p, pop.Body)) {
-		r.OK("E11.ctx-stack", "canvas.Context.Pop", c.Pos(pop.Pos()), "guard; restore whole state; shrink by one")
-	} else {
-		r.Fail("E11.ctx-stack", "canvas.Context.Pop", c.Pos(pop.Pos()), "Pop does not return on an empty stack, then restore the whole ContextState from the last element and then drop exactly that element")
-	}
-
-	// Fill / Stroke
-	for fn, cleared := range map[string]string{"Context.Fill": "Stroke", "Context.Stroke": "Fill"} {
-		fd := core.MustFuncDecl(p, fn)
-		key := "canvas." + fn
-		pat := "{$s:=$c.Style." + cleared + ";$c.Style." + cleared + "=Paint{};$c.DrawPath(0.0,0.0,$c.path);$c.Style." + cleared + "=$s;$c.path=&Path{}}"
-		if core.AlphaMatch(pat, c.Norm(p, fd.Body)) {
-			r.OK("E11.ctx-restore", key, c.Pos(fd.Pos()), "save Style."+cleared+"; clear; DrawPath; restore; reset path")
+	{
+		recv := recvObj(info, push)
+		ok := false
+		for _, st := range push.Body.List { // unconditional: a statement of the body itself
+			as, isAs := st.(*ast.AssignStmt)
+			if !isAs || len(as.Lhs) != 1 || len(as.Rhs) != 1 || !isField(as.Lhs[0], recv, "stack") {
+				continue
+			}
+			call, isCall := core.Unparen(as.Rhs[0]).(*ast.CallExpr)
+			if !isCall || len(call.Args) != 2 || call.Ellipsis.IsValid() {
+				continue
+			}
+			if fn, isID := core.Unparen(call.Fun).(*ast.Ident); isID && fn.Name == "append" && isField(call.Args[0], recv, "stack") && isField(call.Args[1], recv, "ContextState") {
+				ok = true
+			}
+		}
+		if ok {
+			r.OK("E11.ctx-stack", "canvas.Context.Push", c.Pos(push.Pos()), "stack = append(stack, ContextState)")
 		} else {
-			r.Fail("E11.ctx-restore", key, c.Pos(fd.Pos()), fmt.Sprintf("%s does not save, clear and restore exactly Style.%s around its DrawPath on its single exit: a later draw would use the wrong paint", fn, cleared))
+			r.Fail("E11.ctx-stack", "canvas.Context.Push", c.Pos(push.Pos()), "Push does not unconditionally append the whole ContextState value to the stack: part of the state (style, view, coordinate view or system) would not be saved")
 		}
 	}
+	pop := core.MustFuncDecl(p, "Context.Pop")
+	{
+		recv := recvObj(info, pop)
+		defs := singleDefs(info, pop.Body)
+		lenSym := func(e ast.Expr) string {
+			if call, ok := e.(*ast.CallExpr); ok && len(call.Args) == 1 {
+				if fn, ok := core.Unparen(call.Fun).(*ast.Ident); ok && fn.Name == "len" && isField(call.Args[0], recv, "stack") {
+					return "n"
+				}
+			}
+			return ""
+		}
+		last := poly{"n": 1, "": -1}
+		isLast := func(e ast.Expr) bool {
+			if e == nil {
+				return false
+			}
+			pe, ok := polyOf(info, e, lenSym, defs)
+			return ok && polyEqual(pe, last)
+		}
+		var restore, shrink ast.Stmt
+		bad := ""
+		ast.Inspect(pop.Body, func(m ast.Node) bool {
+			as, ok := m.(*ast.AssignStmt)
+			if !ok || len(as.Lhs) != 1 || len(as.Rhs) != 1 {
+				return true
+			}
+			switch {
+			case isField(as.Lhs[0], recv, "ContextState"):
+				ie, ok := core.Unparen(as.Rhs[0]).(*ast.IndexExpr)
+				if restore != nil || !ok || !isField(ie.X, recv, "stack") || !isLast(ie.Index) {
+					bad = "the state is not restored exactly once from the last element of the stack"
+				}
+				restore = as
+			case isField(as.Lhs[0], recv, "stack"):
+				se, ok := core.Unparen(as.Rhs[0]).(*ast.SliceExpr)
+				if shrink != nil || !ok || se.Low != nil || se.Slice3 || !isField(se.X, recv, "stack") || !isLast(se.High) {
+					bad = "the stack is not shrunk by exactly its last element"
+				}
+				shrink = as
+			default:
+				if names, rooted := ctxFieldPath(info, as.Lhs[0], recv); rooted && len(names) > 0 && stateFields[names[0]] {
+					bad = "a single field of the state is assigned besides the whole ContextState"
+				}
+			}
+			return true
+		})
+		if bad == "" && (restore == nil || shrink == nil) {
+			bad = "Pop does not both restore the whole ContextState and shrink the stack"
+		}
+		if bad == "" && shrink.Pos() < restore.Pos() {
+			if _, usesLocal := core.Unparen(restore.(*ast.AssignStmt).Rhs[0].(*ast.IndexExpr).Index).(*ast.Ident); !usesLocal {
+				bad = "the stack is shrunk before the last element is read with an index recomputed from its length"
+			}
+		}
+		if bad == "" {
+			// with an empty stack no path reaches the restore
+			reached := false
+			env := func(e ast.Expr) tri {
+				be, ok := e.(*ast.BinaryExpr)
+				if !ok {
+					return tUnknown
+				}
+				isLen := func(x ast.Expr) bool {
+					pe, ok := polyOf(info, x, lenSym, defs)
+					return ok && polyEqual(pe, poly{"n": 1})
+				}
+				isZero := func(x ast.Expr) bool {
+					v, ok := core.ConstInt(info, x)
+					return ok && v == 0
+				}
+				x, y, op := be.X, be.Y, be.Op
+				if isZero(x) && isLen(y) {
+					x, y = y, x
+					switch op {
+					case token.LSS:
+						op = token.GTR
+					case token.GTR:
+						op = token.LSS
+					case token.LEQ:
+						op = token.GEQ
+					case token.GEQ:
+						op = token.LEQ
+					}
+				}
+				if !isLen(x) || !isZero(y) {
+					return tUnknown
+				}
+				switch op { // len == 0 assumed
+				case token.EQL, token.LEQ, token.GEQ:
+					return tTrue
+				case token.NEQ, token.GTR, token.LSS:
+					return tFalse
+				}
+				return tUnknown
+			}
+			var walk func(stmts []ast.Stmt) bool // returns false when the path ended
+			walk = func(stmts []ast.Stmt) bool {
+				for _, st := range stmts {
+					switch x := st.(type) {
+					case *ast.ReturnStmt:
+						return false
+					case *ast.BlockStmt:
+						if !walk(x.List) {
+							return false
+						}
+					case *ast.IfStmt:
+						t := tUnknown
+						if x.Init == nil || true {
+							t = evalBool(info, x.Cond, env)
+						}
+						contBody, contElse := true, true
+						if t != tFalse {
+							contBody = walk(x.Body.List)
+						}
+						if t != tTrue && x.Else != nil {
+							switch el := x.Else.(type) {
+							case *ast.BlockStmt:
+								contElse = walk(el.List)
+							case *ast.IfStmt:
+								contElse = walk([]ast.Stmt{el})
+							}
+						}
+						if t == tTrue && !contBody || t == tFalse && !contElse && x.Else != nil {
+							return false
+						}
+					default:
+						if st == restore {
+							reached = true
+						}
+					}
+				}
+				return true
+			}
+			walk(pop.Body.List)
+			if reached {
+				bad = "with an empty stack the restore statement is reached: Pop indexes the stack at -1"
+			}
+		}
+		if bad == "" {
+			r.OK("E11.ctx-stack", "canvas.Context.Pop", c.Pos(pop.Pos()), "guard; restore whole state; shrink by one")
+		} else {
+			r.Fail("E11.ctx-stack", "canvas.Context.Pop", c.Pos(pop.Pos()), bad)
+		}
+	}
+
+	// Fill / Stroke / FillStroke: over every path of the body
+	for _, spec := range []struct{ fn, cleared string }{{"Context.Fill", "Stroke"}, {"Context.Stroke", "Fill"}, {"Context.FillStroke", ""}} {
+		fd := core.MustFuncDecl(p, spec.fn)
+		recv := recvObj(info, fd)
+		key := "canvas." + spec.fn
+		type st struct {
+			saved    map[string]types.Object // paint name -> local holding it
+			cleared  map[string]bool
+			drawn    bool
+			drawnOK  bool
+			restored map[string]bool
+			reset    bool
+		}
+		clone := func(a st) st {
+			b := st{saved: map[string]types.Object{}, cleared: map[string]bool{}, restored: map[string]bool{}, drawn: a.drawn, drawnOK: a.drawnOK, reset: a.reset}
+			for k, v := range a.saved {
+				b.saved[k] = v
+			}
+			for k, v := range a.cleared {
+				b.cleared[k] = v
+			}
+			for k, v := range a.restored {
+				b.restored[k] = v
+			}
+			return b
+		}
+		bad := ""
+		finish := func(a st) {
+			if bad != "" {
+				return
+			}
+			switch {
+			case !a.reset:
+				bad = "a path through the method returns without resetting the pending path: the sub-paths drawn (or skipped) now ride along with the next Fill/Stroke"
+			case a.drawn && !a.drawnOK:
+				if spec.cleared == "" {
+					bad = "the path is drawn with a paint cleared"
+				} else {
+					bad = "the path is drawn without exactly Style." + spec.cleared + " cleared"
+				}
+			case a.drawn && spec.cleared != "" && !a.restored[spec.cleared]:
+				bad = "Style." + spec.cleared + " is not restored from the saved value after the draw: a later draw would use the wrong paint"
+			}
+		}
+		var walk func(stmts []ast.Stmt, a st, k func(st))
+		walk = func(stmts []ast.Stmt, a st, k func(st)) {
+			if len(stmts) == 0 {
+				k(a)
+				return
+			}
+			s0, rest := stmts[0], stmts[1:]
+			next := func(b st) { walk(rest, b, k) }
+			switch x := s0.(type) {
+			case *ast.ReturnStmt:
+				finish(a)
+				return
+			case *ast.BlockStmt:
+				walk(x.List, a, next)
+				return
+			case *ast.IfStmt:
+				walk(x.Body.List, clone(a), next)
+				switch el := x.Else.(type) {
+				case nil:
+					next(clone(a))
+				case *ast.BlockStmt:
+					walk(el.List, clone(a), next)
+				case *ast.IfStmt:
+					walk([]ast.Stmt{el}, clone(a), next)
+				}
+				return
+			case *ast.AssignStmt:
+				if len(x.Lhs) == 1 && len(x.Rhs) == 1 {
+					for _, paint := range []string{"Fill", "Stroke"} {
+						if id, ok := x.Lhs[0].(*ast.Ident); ok && isField(x.Rhs[0], recv, "Style", paint) {
+							a.saved[paint] = core.ObjOf(info, id)
+						}
+						if isField(x.Lhs[0], recv, "Style", paint) {
+							if cl, ok := core.Unparen(x.Rhs[0]).(*ast.CompositeLit); ok && len(cl.Elts) == 0 {
+								a.cleared[paint] = a.saved[paint] != nil
+							} else if id, ok := core.Unparen(x.Rhs[0]).(*ast.Ident); ok && a.saved[paint] != nil && core.ObjOf(info, id) == a.saved[paint] {
+								if a.drawn {
+									a.restored[paint] = true
+								}
+								delete(a.cleared, paint)
+							} else {
+								a.cleared[paint] = false // some other value: neither cleared nor restored
+							}
+						}
+					}
+					if isField(x.Lhs[0], recv, "path") {
+						a.reset = a.drawn || !hasDrawCall(info, fd)
+						if !a.drawn {
+							a.reset = true // a path that draws nothing may still reset
+						}
+					}
+				}
+			case *ast.ExprStmt:
+				if call, ok := x.X.(*ast.CallExpr); ok {
+					if f := core.CalleeOf(info, call); f != nil && f.Name() == "DrawPath" {
+						a.drawn = true
+						a.reset = false // the reset has to follow the draw
+						want := map[string]bool{}
+						if spec.cleared != "" {
+							want[spec.cleared] = true
+						}
+						okc := true
+						for _, paint := range []string{"Fill", "Stroke"} {
+							if want[paint] != a.cleared[paint] {
+								okc = false
+							}
+						}
+						isPath := false
+						for _, arg := range call.Args {
+							if isField(arg, recv, "path") {
+								isPath = true
+							}
+						}
+						a.drawnOK = okc && isPath
+					}
+				}
+			}
+			walk(rest, a, k)
+		}
+		walk(fd.Body.List, st{saved: map[string]types.Object{}, cleared: map[string]bool{}, restored: map[string]bool{}}, finish)
+		if bad == "" {
+			r.OK("E11.ctx-restore", key, c.Pos(fd.Pos()), "every path: (save; clear; DrawPath; restore) or nothing drawn; path reset")
+		} else {
+			r.Fail("E11.ctx-restore", key, c.Pos(fd.Pos()), bad)
+		}
+	}
+}
+
+// hasDrawCall reports whether fd calls DrawPath at all.
+func hasDrawCall(info *types.Info, fd *ast.FuncDecl) bool {
+	found := false
+	ast.Inspect(fd.Body, func(m ast.Node) bool {
+		if call, ok := m.(*ast.CallExpr); ok {
+			if f := core.CalleeOf(info, call); f != nil && f.Name() == "DrawPath" {
+				found = true
+			}
+		}
+		return true
+	})
+	return found
 }
 
 // E11ViewComposition: view helpers post-multiply; draw entry points assemble the same matrix.
@@ -1261,29 +1562,272 @@ func E11SVGUnits(c *core.Ctx, r *core.Report) {
 
 // E11Subsetter: glyph subsetter invariants.
 func E11Subsetter(c *core.Ctx, r *core.Report) {
-	r.Rule("E11.subsetter", "FontSubsetter: .notdef (glyph 0) is at index 0 of IDs and mapped 0→0 by the constructor; Get returns the existing code on a hit and, on a miss only, assigns len(IDs) before the append as the new code, appends the glyph and records the mapping (one stable code per glyph)")
+	r.Rule("E11.subsetter", "FontSubsetter: the constructor's literal puts .notdef (glyph 0) at index 0 of IDs and maps 0→0. Get, over every path of its body: a path on which the lookup in IDMap succeeded returns the looked-up code and neither appends nor records; a path on which it failed appends the glyph to IDs exactly once, records IDMap[glyph] = code and returns that code, where code was taken from len(IDs) before the append (one stable code per glyph, equal to the glyph's index in IDs). List returns IDs (or a copy) without reordering")
 	p := c.MustPkg("")
-	nosp := func(n ast.Node) string { return squash(c.Src(n)) }
+	info := p.TypesInfo
+	// constructor
 	ctor := core.MustFuncDecl(p, "NewFontSubsetter")
-	cb := nosp(ctor.Body)
-	if strings.Contains(cb, "IDs:[]uint16{0}") && strings.Contains(cb, "IDMap:map[uint16]uint16{0:0}") {
-		r.OK("E11.subsetter", "canvas.NewFontSubsetter|.notdef at zero", c.Pos(ctor.Pos()), "IDs: {0}, IDMap: {0: 0}")
-	} else {
-		r.Fail("E11.subsetter", "canvas.NewFontSubsetter|.notdef at zero", c.Pos(ctor.Pos()), "the subsetter does not start with glyph 0 (.notdef) at code 0")
+	{
+		okIDs, okMap := false, false
+		ast.Inspect(ctor.Body, func(m ast.Node) bool {
+			cl, ok := m.(*ast.CompositeLit)
+			if !ok {
+				return true
+			}
+			if t := info.TypeOf(cl); t == nil || !strings.HasSuffix(t.String(), "FontSubsetter") {
+				return true
+			}
+			for _, el := range cl.Elts {
+				kv, ok := el.(*ast.KeyValueExpr)
+				if !ok {
+					continue
+				}
+				k, _ := kv.Key.(*ast.Ident)
+				v, isLit := core.Unparen(kv.Value).(*ast.CompositeLit)
+				if k == nil || !isLit {
+					continue
+				}
+				switch k.Name {
+				case "IDs":
+					if len(v.Elts) == 1 {
+						if z, ok := core.ConstInt(info, v.Elts[0]); ok && z == 0 {
+							okIDs = true
+						}
+					}
+				case "IDMap":
+					if len(v.Elts) == 1 {
+						if e, ok := v.Elts[0].(*ast.KeyValueExpr); ok {
+							a, ok1 := core.ConstInt(info, e.Key)
+							b, ok2 := core.ConstInt(info, e.Value)
+							if ok1 && ok2 && a == 0 && b == 0 {
+								okMap = true
+							}
+						}
+					}
+				}
+			}
+			return true
+		})
+		if okIDs && okMap {
+			r.OK("E11.subsetter", "canvas.NewFontSubsetter|.notdef at zero", c.Pos(ctor.Pos()), "IDs: {0}, IDMap: {0: 0}")
+		} else {
+			r.Fail("E11.subsetter", "canvas.NewFontSubsetter|.notdef at zero", c.Pos(ctor.Pos()), "the subsetter does not start with glyph 0 (.notdef) at code 0")
+		}
 	}
 	get := core.MustFuncDecl(p, "FontSubsetter.Get")
 	r.Func("canvas.FontSubsetter.Get")
-	okGet := core.AlphaMatch("{if $old,$ok:=$s.IDMap[$g];$ok{return $old};$new:=uint16(len($s.IDs));$s.IDs=append($s.IDs,$g);$s.IDMap[$g]=$new;return $new}", c.Norm(p, get.Body))
-	if okGet {
-		r.OK("E11.subsetter", "canvas.FontSubsetter.Get|stable codes", c.Pos(get.Pos()), "hit returns; miss: code = len(IDs); append; record; return")
-	} else {
-		r.Fail("E11.subsetter", "canvas.FontSubsetter.Get|stable codes", c.Pos(get.Pos()), "Get is not `hit → return existing code; miss → code := len(IDs), append glyph, record mapping, return code`: codes could be reassigned or skip the append order that List() relies on")
+	{
+		recv := recvObj(info, get)
+		glyph := paramObj(info, get, 0)
+		isF := func(e ast.Expr, name string) bool {
+			names, rooted := ctxFieldPath(info, e, recv)
+			_, isIdx := core.Unparen(e).(*ast.IndexExpr)
+			return rooted && !isIdx && len(names) == 1 && names[0] == name
+		}
+		isGlyph := func(e ast.Expr) bool {
+			id, ok := core.Unparen(e).(*ast.Ident)
+			return ok && core.ObjOf(info, id) == glyph
+		}
+		isLookup := func(e ast.Expr) bool {
+			ie, ok := core.Unparen(e).(*ast.IndexExpr)
+			return ok && isF(ie.X, "IDMap") && isGlyph(ie.Index)
+		}
+		type st struct {
+			hit                 tri
+			appended, recorded  int
+			recordedOK          bool
+			lookupV, okV, codeV types.Object // codeV: len(IDs) taken before any append
+		}
+		bad := ""
+		n := 0
+		finish := func(a st, ret ast.Expr, pos token.Pos) {
+			if bad != "" {
+				return
+			}
+			n++
+			id, _ := core.Unparen(ret).(*ast.Ident)
+			var ro types.Object
+			if id != nil {
+				ro = core.ObjOf(info, id)
+			}
+			switch a.hit {
+			case tTrue:
+				if a.appended != 0 || a.recorded != 0 {
+					bad = "a glyph that already has a code is appended or recorded again: its code changes"
+				} else if ro == nil || ro != a.lookupV {
+					bad = "on a hit the returned value is not the code found in IDMap"
+				}
+			case tFalse:
+				switch {
+				case a.appended != 1:
+					bad = fmt.Sprintf("a new glyph is appended to IDs %d times", a.appended)
+				case a.recorded != 1 || !a.recordedOK:
+					bad = "a new glyph's code is not recorded in IDMap as len(IDs) taken before the append"
+				case ro == nil || ro != a.codeV:
+					bad = "the code returned for a new glyph is not the one recorded (len(IDs) before the append)"
+				}
+			default:
+				bad = "a path returns without having tested whether the glyph already has a code"
+			}
+			_ = pos
+		}
+		var walk func(stmts []ast.Stmt, a st)
+		walk = func(stmts []ast.Stmt, a st) {
+			for i, s0 := range stmts {
+				switch x := s0.(type) {
+				case *ast.ReturnStmt:
+					if len(x.Results) == 1 {
+						finish(a, x.Results[0], x.Pos())
+					}
+					return
+				case *ast.BlockStmt:
+					walk(append(append([]ast.Stmt{}, x.List...), stmts[i+1:]...), a)
+					return
+				case *ast.IfStmt:
+					b := a
+					if as, ok := x.Init.(*ast.AssignStmt); ok && len(as.Lhs) == 2 && len(as.Rhs) == 1 && isLookup(as.Rhs[0]) {
+						if v, ok := as.Lhs[0].(*ast.Ident); ok {
+							b.lookupV = core.ObjOf(info, v)
+						}
+						if v, ok := as.Lhs[1].(*ast.Ident); ok {
+							b.okV = core.ObjOf(info, v)
+						}
+					}
+					val := tUnknown
+					cond := core.Unparen(x.Cond)
+					neg := false
+					if u, ok := cond.(*ast.UnaryExpr); ok && u.Op == token.NOT {
+						cond, neg = core.Unparen(u.X), true
+					}
+					if id, ok := cond.(*ast.Ident); ok && b.okV != nil && core.ObjOf(info, id) == b.okV {
+						val = triOf(!neg)
+					}
+					t, e := b, b
+					if val != tUnknown {
+						t.hit = val
+						if val == tTrue {
+							e.hit = tFalse
+						} else {
+							e.hit = tTrue
+						}
+					}
+					walk(append(append([]ast.Stmt{}, x.Body.List...), stmts[i+1:]...), t)
+					switch el := x.Else.(type) {
+					case nil:
+						walk(stmts[i+1:], e)
+					case *ast.BlockStmt:
+						walk(append(append([]ast.Stmt{}, el.List...), stmts[i+1:]...), e)
+					case *ast.IfStmt:
+						walk(append([]ast.Stmt{el}, stmts[i+1:]...), e)
+					}
+					return
+				case *ast.AssignStmt:
+					if len(x.Lhs) == 2 && len(x.Rhs) == 1 && isLookup(x.Rhs[0]) {
+						if v, ok := x.Lhs[0].(*ast.Ident); ok {
+							a.lookupV = core.ObjOf(info, v)
+						}
+						if v, ok := x.Lhs[1].(*ast.Ident); ok {
+							a.okV = core.ObjOf(info, v)
+						}
+						continue
+					}
+					if len(x.Lhs) != 1 || len(x.Rhs) != 1 {
+						continue
+					}
+					// code := uint16(len(s.IDs)) / len(s.IDs)
+					hasLen := false
+					ast.Inspect(x.Rhs[0], func(k ast.Node) bool {
+						if call, ok := k.(*ast.CallExpr); ok && len(call.Args) == 1 {
+							if fn, ok := core.Unparen(call.Fun).(*ast.Ident); ok && fn.Name == "len" && isF(call.Args[0], "IDs") {
+								hasLen = true
+							}
+						}
+						return true
+					})
+					if id, ok := x.Lhs[0].(*ast.Ident); ok && hasLen {
+						if a.appended == 0 {
+							a.codeV = core.ObjOf(info, id)
+						} else if core.ObjOf(info, id) == a.codeV {
+							a.codeV = nil
+						}
+						continue
+					}
+					if isF(x.Lhs[0], "IDs") {
+						if call, ok := core.Unparen(x.Rhs[0]).(*ast.CallExpr); ok && len(call.Args) == 2 && !call.Ellipsis.IsValid() {
+							if fn, ok := core.Unparen(call.Fun).(*ast.Ident); ok && fn.Name == "append" && isF(call.Args[0], "IDs") && isGlyph(call.Args[1]) {
+								a.appended++
+								continue
+							}
+						}
+						a.appended += 2 // any other store into IDs
+						continue
+					}
+					if isLookup(x.Lhs[0]) {
+						a.recorded++
+						id, ok := core.Unparen(x.Rhs[0]).(*ast.Ident)
+						a.recordedOK = ok && a.codeV != nil && core.ObjOf(info, id) == a.codeV
+						continue
+					}
+					if ie, ok := core.Unparen(x.Lhs[0]).(*ast.IndexExpr); ok && (isF(ie.X, "IDMap") || isF(ie.X, "IDs")) {
+						a.recorded += 2 // a store under another key or into IDs by index
+					}
+				}
+			}
+			if bad == "" {
+				bad = "a path leaves the function body without a return"
+			}
+		}
+		walk(get.Body.List, st{})
+		if bad == "" && n >= 2 {
+			r.OK("E11.subsetter", "canvas.FontSubsetter.Get|stable codes", c.Pos(get.Pos()), fmt.Sprintf("%d paths: hit returns the code; miss: code = len(IDs) before the append, append once, record, return", n))
+		} else {
+			if bad == "" {
+				bad = "fewer than two paths (hit and miss) through Get"
+			}
+			r.Fail("E11.subsetter", "canvas.FontSubsetter.Get|stable codes", c.Pos(get.Pos()), bad+": codes could be reassigned or disagree with the order of List()")
+		}
 	}
 	list := core.MustFuncDecl(p, "FontSubsetter.List")
-	if core.AlphaMatch("{return $s.IDs}", c.Norm(p, list.Body)) {
-		r.OK("E11.subsetter", "canvas.FontSubsetter.List", c.Pos(list.Pos()), "returns IDs in code order")
-	} else {
-		r.Fail("E11.subsetter", "canvas.FontSubsetter.List", c.Pos(list.Pos()), "List does not return the glyphs in the order of their codes")
+	{
+		recv := recvObj(info, list)
+		good, sorted := false, false
+		ast.Inspect(list.Body, func(m ast.Node) bool {
+			switch x := m.(type) {
+			case *ast.ReturnStmt:
+				if len(x.Results) == 1 {
+					e := core.Unparen(x.Results[0])
+					src := func(e ast.Expr) bool {
+						names, rooted := ctxFieldPath(info, e, recv)
+						return rooted && len(names) == 1 && names[0] == "IDs"
+					}
+					if src(e) {
+						good = true
+					}
+					if call, ok := e.(*ast.CallExpr); ok {
+						for _, a := range call.Args {
+							if src(a) {
+								if f := core.CalleeOf(info, call); f != nil && f.Name() == "Clone" {
+									good = true
+								}
+								if fn, ok := core.Unparen(call.Fun).(*ast.Ident); ok && fn.Name == "append" && call.Ellipsis.IsValid() {
+									good = true
+								}
+							}
+						}
+					}
+				}
+			case *ast.CallExpr:
+				if f := core.CalleeOf(info, x); f != nil && f.Pkg() != nil && (f.Pkg().Path() == "sort" || strings.HasPrefix(f.Name(), "Sort") || f.Name() == "Reverse") {
+					sorted = true
+				}
+			}
+			return true
+		})
+		if good && !sorted {
+			r.OK("E11.subsetter", "canvas.FontSubsetter.List", c.Pos(list.Pos()), "returns IDs in code order")
+		} else {
+			r.Fail("E11.subsetter", "canvas.FontSubsetter.List", c.Pos(list.Pos()), "List does not return the glyphs in the order of their codes")
+		}
 	}
 }
 
@@ -7461,4 +8005,213 @@ func E11ReversedFrame(c *core.Ctx, r *core.Report) {
 	}
 	r.Count("E11.reversed-frame-segments", n)
 	r.Floor("E11.reversed-frame-segments", 2)
+}
+
+// E11ConicFrame: the matrix of the transformed ellipse's quadratic form is the inverse of m·R(φ).
+func E11ConicFrame(c *core.Ctx, r *core.Report) {
+	r.Rule("E11.conic-frame", "Path.Transform, arc case: the ellipse is E = diag(1/rx², 1/ry²) in its own frame, the frame is rotated by φ and then mapped by m, so the transformed ellipse is Q = T⁻ᵀ·E·T⁻¹ with T = m·R(φ) and T⁻¹ = R(φ)⁻¹·m⁻¹. Matrices do not commute: the matrix X used in the congruence X.T().Mul(E).Mul(X) is evaluated to a word in the free group over m and R(φ) (Rotate post-multiplies — premise read off Matrix.Rotate —, Mul concatenates, Inv reverses and inverts, R(−a) = R(a)⁻¹, single-definition locals substituted, adjacent inverses cancelled) and must be exactly R(φ)⁻¹·m⁻¹. The reversed product m⁻¹·R(φ)⁻¹ is the inverse of R(φ)·m: radii and rotation come out as if m acted before the ellipse's own rotation, wrong for every rotated arc under a non-uniform scale, shear or reflection")
+	p := c.MustPkg("")
+	info := p.TypesInfo
+	// premise: Matrix.Rotate returns receiver.Mul(…)
+	rot := core.MustFuncDecl(p, "Matrix.Rotate")
+	premise := false
+	ast.Inspect(rot.Body, func(m ast.Node) bool {
+		if ret, ok := m.(*ast.ReturnStmt); ok && len(ret.Results) == 1 {
+			if call, ok := core.Unparen(ret.Results[0]).(*ast.CallExpr); ok {
+				if se, ok := call.Fun.(*ast.SelectorExpr); ok && se.Sel.Name == "Mul" {
+					if id, ok := core.Unparen(se.X).(*ast.Ident); ok && core.ObjOf(info, id) == recvObj(info, rot) {
+						premise = true
+					}
+				}
+			}
+		}
+		return true
+	})
+	if premise {
+		r.OK("E11.conic-frame", "canvas.Matrix.Rotate|post-multiplies", c.Pos(rot.Pos()), "")
+	} else {
+		r.Fail("E11.conic-frame", "canvas.Matrix.Rotate|post-multiplies", c.Pos(rot.Pos()), "Matrix.Rotate is not `return m.Mul(rotation)`: the premise of the word evaluation does not hold")
+		return
+	}
+	fd := core.MustFuncDecl(p, "Path.Transform")
+	r.Func("canvas.Path.Transform")
+	mObj := paramObj(info, fd, 0)
+	key := "canvas.Path.Transform|the congruence matrix is the inverse of m·R(φ)"
+	type gen struct {
+		sym string
+		exp int
+	}
+	var arcClause *ast.CaseClause
+	for _, cc := range cmdSwitchClauses(p, fd) {
+		if strings.Contains(core.CaseLabel(info, cc), "ArcToCmd") {
+			arcClause = cc
+		}
+	}
+	if arcClause == nil {
+		r.Fail("E11.conic-frame", key, c.Pos(fd.Pos()), "arc case not found")
+		return
+	}
+	// definitions: last assignment before the use site, positions compared
+	type def struct {
+		pos token.Pos
+		rhs ast.Expr
+	}
+	defsOf := map[types.Object][]def{}
+	ast.Inspect(arcClause, func(m ast.Node) bool {
+		as, ok := m.(*ast.AssignStmt)
+		if !ok || len(as.Lhs) != len(as.Rhs) {
+			return true
+		}
+		for i, l := range as.Lhs {
+			if id, ok := l.(*ast.Ident); ok {
+				defsOf[core.ObjOf(info, id)] = append(defsOf[core.ObjOf(info, id)], def{as.Pos(), as.Rhs[i]})
+			}
+		}
+		return true
+	})
+	undecided := ""
+	var word func(e ast.Expr, at token.Pos, depth int) []gen
+	word = func(e ast.Expr, at token.Pos, depth int) []gen {
+		if depth > 12 {
+			undecided = "definitions nest too deeply"
+			return nil
+		}
+		switch x := core.Unparen(e).(type) {
+		case *ast.Ident:
+			o := core.ObjOf(info, x)
+			if o == mObj {
+				return []gen{{"m", 1}}
+			}
+			if x.Name == "Identity" {
+				return nil
+			}
+			var last *def
+			for i := range defsOf[o] {
+				if d := &defsOf[o][i]; d.pos < at && (last == nil || d.pos > last.pos) {
+					last = d
+				}
+			}
+			if last != nil {
+				return word(last.rhs, last.pos, depth+1)
+			}
+			undecided = "matrix `" + x.Name + "` has no definition in the arc case"
+			return nil
+		case *ast.CallExpr:
+			se, ok := x.Fun.(*ast.SelectorExpr)
+			if !ok {
+				break
+			}
+			base := word(se.X, at, depth+1)
+			switch se.Sel.Name {
+			case "Rotate":
+				if len(x.Args) == 1 {
+					a := core.Unparen(x.Args[0])
+					exp := 1
+					// strip unary minus signs from the leading factor of a product: -a*b/c = -(a*b/c)
+					var strip func(e ast.Expr) ast.Expr
+					strip = func(e ast.Expr) ast.Expr {
+						switch y := core.Unparen(e).(type) {
+						case *ast.UnaryExpr:
+							if y.Op == token.SUB {
+								exp = -exp
+								return strip(y.X)
+							}
+						case *ast.BinaryExpr:
+							if y.Op == token.MUL || y.Op == token.QUO {
+								return &ast.BinaryExpr{X: strip(y.X), Op: y.Op, Y: y.Y}
+							}
+						}
+						return core.Unparen(e)
+					}
+					a = strip(a)
+					return append(append([]gen{}, base...), gen{"R(" + squash(types.ExprString(a)) + ")", exp})
+				}
+			case "Inv":
+				out := []gen{}
+				for i := len(base) - 1; i >= 0; i-- {
+					out = append(out, gen{base[i].sym, -base[i].exp})
+				}
+				return out
+			case "Mul":
+				if len(x.Args) == 1 {
+					return append(append([]gen{}, base...), word(x.Args[0], at, depth+1)...)
+				}
+			}
+			undecided = "matrix expression `" + types.ExprString(x) + "` is not built from m, Rotate, Mul and Inv"
+			return nil
+		}
+		undecided = "matrix expression `" + types.ExprString(e) + "` is not understood"
+		return nil
+	}
+	reduce := func(w []gen) []gen {
+		out := []gen{}
+		for _, g := range w {
+			if n := len(out); n > 0 && out[n-1].sym == g.sym && out[n-1].exp == -g.exp {
+				out = out[:n-1]
+			} else {
+				out = append(out, g)
+			}
+		}
+		return out
+	}
+	show := func(w []gen) string {
+		var parts []string
+		for _, g := range w {
+			s := g.sym
+			if g.exp < 0 {
+				s += "⁻¹"
+			}
+			parts = append(parts, s)
+		}
+		if len(parts) == 0 {
+			return "I"
+		}
+		return strings.Join(parts, "·")
+	}
+	// the congruence: A.T().Mul(Q).Mul(B) with A and B the same variable
+	n := 0
+	ast.Inspect(arcClause, func(m ast.Node) bool {
+		outer, ok := m.(*ast.CallExpr)
+		if !ok || len(outer.Args) != 1 {
+			return true
+		}
+		so, ok := outer.Fun.(*ast.SelectorExpr)
+		if !ok || so.Sel.Name != "Mul" {
+			return true
+		}
+		inner, ok := core.Unparen(so.X).(*ast.CallExpr)
+		if !ok || len(inner.Args) != 1 {
+			return true
+		}
+		si, ok := inner.Fun.(*ast.SelectorExpr)
+		if !ok || si.Sel.Name != "Mul" {
+			return true
+		}
+		tcall, ok := core.Unparen(si.X).(*ast.CallExpr)
+		if !ok {
+			return true
+		}
+		st, ok := tcall.Fun.(*ast.SelectorExpr)
+		if !ok || st.Sel.Name != "T" {
+			return true
+		}
+		if types.ExprString(st.X) != types.ExprString(outer.Args[0]) {
+			return true
+		}
+		n++
+		undecided = ""
+		w := reduce(word(outer.Args[0], outer.Pos(), 0))
+		okWord := len(w) == 2 && strings.HasPrefix(w[0].sym, "R(") && w[0].exp == -1 && w[1].sym == "m" && w[1].exp == -1
+		switch {
+		case undecided != "":
+			r.Fail("E11.conic-frame", key, c.Pos(outer.Pos()), undecided)
+		case okWord:
+			r.OK("E11.conic-frame", key, c.Pos(outer.Pos()), show(w))
+		default:
+			r.Fail("E11.conic-frame", key, c.Pos(outer.Pos()), "the congruence uses X = "+show(w)+", want R(φ)⁻¹·m⁻¹ (the inverse of T = m·R(φ)): matrices do not commute, so the radii and the rotation of a rotated arc come out wrong under every m that is not a similarity")
+		}
+		return true
+	})
+	r.Count("E11.conic-congruences", n)
+	r.Floor("E11.conic-congruences", 1)
 }
